@@ -14,11 +14,14 @@ pub const SIZES: [(usize, usize); 7] = [(1, 1), (1, 2), (2, 1), (2, 2), (3, 2), 
 
 fn ops(cols: usize, rows: usize, with_huge: bool) -> Vec<String> {
     let mut v: Vec<String> = vec![
-        "a".into(),
+        // ` and ~ are the two ends of the range the drawing set translates (and ` becomes
+        // U+2666, whose low byte lies in that range again: REP must repeat it unchanged);
+        // U+0160 and U+4F60 have a low byte inside the range and must never be translated
+        "`".into(),
         "q".into(),
         "~".into(),
-        "é".into(),
-        "世".into(),
+        "Š".into(),
+        "你".into(),
         "\u{7f}".into(),
         "\x1b[b".into(),
         "\x1b[2b".into(),
@@ -213,7 +216,7 @@ pub fn run(env: &Env) -> PropRun {
         "enum-tiny",
         total,
         true,
-        &format!("sizes {{1x1,1x2,2x1,2x2,3x2,3x3,4x3}} x margin pairs x 4 charset set-ups x auto-wrap on/off x insert on/off x every start cell incl. wrap-pending x all op sequences of length {} over {{print a q ~ é 世 DEL, REP -,2,cols,2cols+1(,65535), ?7h ?7l 4h 4l SO SI CR CUP-last-row}}", len),
+        &format!("sizes {{1x1,1x2,2x1,2x2,3x2,3x3,4x3}} x margin pairs x 4 charset set-ups x auto-wrap on/off x insert on/off x every start cell incl. wrap-pending x all op sequences of length {} over {{print ` q ~ U+0160 U+4F60 DEL, REP -,2,cols,2cols+1(,65535), ?7h ?7l 4h 4l SO SI CR CUP-last-row}}", len),
         &make,
         &j,
     ));
